@@ -1094,6 +1094,11 @@ func genSchedHistory(r *rng.R, length int, faults int, workers int, ties bool, c
 			if g.cron {
 				g.now = T0.Add(time.Duration(r.Intn(30)) * time.Minute)
 			}
+			if r.Chance(1, 5) {
+				// a reading strictly between two millisecond instants, just short of a scheduled time (the world's clock
+				// is monotone: an earlier reading than the current one is ignored)
+				g.now = g.now.Add(-time.Duration(rng.Pick(r, []int{100, 400, 499, 500, 501, 999})) * time.Microsecond)
+			}
 			h.Ops = append(h.Ops, "adv "+proto.Time(g.now))
 		case w < 76:
 			h.Ops = append(h.Ops, "step"+g.injections())
